@@ -394,7 +394,7 @@ pub fn run(tier: Tier) -> i32 {
             }
             // The step alphabet has no way to make a directory: a directory that exists only in the
             // simulated tree was created implicitly by open(O_CREAT) (missing parent directories)
-            if class.is_empty() && sim.tree.iter().any(|(p, e)| e.0 == 'd' && !real.tree.contains_key(p)) {
+            if class.is_empty() && sim.tree.iter().any(|(p, e)| e.0 == 'd' && real.tree.get(p).is_none_or(|r| r.0 != 'd')) {
                 class = "create-missing-parent".into();
             }
             if class.is_empty() {
